@@ -31,12 +31,12 @@ impl syn::parse::Parse for ContainerAttributes {
                 "tag"               => this.tag               = input.parse()?,
                 "content"           => this.content           = input.parse()?,
                 "untagged"          => this.untagged          = true,
-                "default"           => this.default           = true,
+                "default"           => {this.default = true; input.parse::<EqValue>()?;},
                 "transparent"       => this.transparent       = true,
                 "from"              => this.from              = input.parse()?,
                 "try_from"          => this.try_from          = input.parse()?,
                 "into"              => this.into              = input.parse()?,
-                _ => ()
+                _ => {input.parse::<EqValue>()?;}/* skip `= "..."` of attributes we don't look at */
             }
 
             if input.peek(token::Comma) {
@@ -67,13 +67,13 @@ impl syn::parse::Parse for FieldAttributes {
             match &*i.to_string() {
                 "rename"              => this.rename              = input.parse()?,
                 "alias"               => this.alias               = input.parse()?,
-                "default"             => this.default             = true,
+                "default"             => {this.default = true; input.parse::<EqValue>()?;},
                 "flatten"             => this.flatten             = true,
                 "skip"                => this.skip                = true,
                 "skip_serializing"    => this.skip_serializing    = true,
                 "skip_deserializing"  => this.skip_deserializing  = true,
                 "skip_serializing_if" => this.skip_serializing_if = input.parse()?,
-                _ => ()
+                _ => {input.parse::<EqValue>()?;}/* skip `= "..."` of attributes we don't look at */
             }
 
             if input.peek(token::Comma) {
@@ -112,7 +112,7 @@ impl syn::parse::Parse for VariantAttributes {
                 "skip_serializing_if" => this.skip_serializing_if = input.parse()?,
                 "other"               => this.other               = true,
                 "untagged"            => this.untagged            = true,
-                _ => ()
+                _ => {input.parse::<EqValue>()?;}/* skip `= "..."` of attributes we don't look at */
             }
 
             if input.peek(token::Comma) {
